@@ -63,6 +63,28 @@ def case_coalescent(kind):
     return [m], params, 'm', {'heights_order': True}
 
 
+def case_plinear():
+    taxa = cm.taxa_json(3)
+    tree = cm.time_tree_json(((0, 1), 2), 3)
+    tree['taxa'] = taxa
+    m = {'id': 'm', 'type': 'PiecewiseLinearCoalescentGridModel', 'theta': {'id': 'theta', 'type': 'Parameter', 'tensor': [2.0, 3.0]},
+         'grid': [1.7], 'tree_model': tree}
+    return [m], {'theta': P([2.0, 3.0], 0.01, None), 'tree.heights': P([1.0, 2.5], 0.01, None)}, 'm', {'heights_order': True}
+
+
+def case_subst(kind):
+    """p_t of a substitution model as the evaluated quantity (value shape [S, 1, 1, 4, 4] flattened per sample)"""
+    if kind == 'GTR':
+        sm = {'id': 'subst', 'type': 'GTR', 'rates': {'id': 'rates', 'type': 'Parameter', 'tensor': [0.8, 1.1, 1.4, 1.7, 2.0, 2.3]},
+              'frequencies': {'id': 'freqs', 'type': 'Parameter', 'tensor': [0.1, 0.2, 0.3, 0.4]}}
+        params = {'rates': P([0.8, 1.1, 1.4, 1.7, 2.0, 2.3], 0.01, None), 'freqs': P([0.1, 0.2, 0.3, 0.4], 0.01, None)}
+    else:
+        sm = {'id': 'subst', 'type': 'HKY', 'kappa': {'id': 'kappa', 'type': 'Parameter', 'tensor': [3.0]},
+              'frequencies': {'id': 'freqs', 'type': 'Parameter', 'tensor': [0.1, 0.2, 0.3, 0.4]}}
+        params = {'kappa': P([3.0], 0.01, None), 'freqs': P([0.1, 0.2, 0.3, 0.4], 0.01, None)}
+    return [sm], params, 'subst', {'evaluate': 'q'}
+
+
 def case_gmrf():
     m = {'id': 'm', 'type': 'GMRF', 'x': {'id': 'field', 'type': 'Parameter', 'tensor': [0.1, 0.5, 0.2]},
          'precision': {'id': 'tau', 'type': 'Parameter', 'tensor': [1.5]}}
@@ -158,6 +180,9 @@ CASES = {
     'coalescent:exponential': lambda: case_coalescent('exponential'),
     'coalescent:skyride': lambda: case_coalescent('skyride'),
     'coalescent:skygrid': lambda: case_coalescent('skygrid'),
+    'coalescent:piecewise-linear': case_plinear,
+    'substitution:GTR.q': lambda: case_subst('GTR'),
+    'substitution:HKY.q': lambda: case_subst('HKY'),
     'gmrf': case_gmrf,
     'ctmc_scale': case_ctmc,
     'tree_prior': case_tree_prior,
@@ -180,6 +205,12 @@ def build(specs):
     for sp in specs:
         process_objects(sp, dic)
     return dic
+
+
+def evaluate(obj, opts):
+    if opts.get('evaluate') == 'q':
+        return obj.q()
+    return obj()
 
 
 def run_task(task, tr):
@@ -228,7 +259,7 @@ def run_task(task, tr):
                     A[p].tensor = from_ids(ids)
                 else:
                     A[p].tensor = from_ids(shared[p]._ids.clone())
-            val = A[target]()
+            val = evaluate(A[target], opts)
         except Exception as e:  # unsupported shape combination: allowed to fail loudly
             raised = f'{type(e).__name__}: {e}'
         tr.witness_runs += 1
@@ -251,7 +282,7 @@ def run_task(task, tr):
                 for p in params:
                     src = per_s[p][s] if p in batched else shared[p]
                     B[p].tensor = from_ids(src._ids.clone())
-                vs = B[target]()
+                vs = evaluate(B[target], opts)
                 a = vb[s].reshape(-1).tolist()
                 b = vs._ids.reshape(-1).tolist()
                 if len(a) != len(b):
@@ -314,7 +345,7 @@ def replay_case(cname, batched, vals):
         for k in ('freqs',):
             if k in A:
                 A[k].tensor = A[k].tensor.to(torch.float64)
-        val = A[target]().to(torch.float64)
+        val = evaluate(A[target], opts).to(torch.float64)
     except Exception as e:
         return False, f'batched evaluation raises ({type(e).__name__}): accepted'
     if val.dim() == 0 or val.shape[0] != S:
@@ -326,7 +357,7 @@ def replay_case(cname, batched, vals):
         for k in ('freqs',):
             if k in B:
                 B[k].tensor = B[k].tensor.to(torch.float64)
-        vs = B[target]().to(torch.float64)
+        vs = evaluate(B[target], opts).to(torch.float64)
         if vs.numel() != val[s].numel() or not torch.allclose(val[s].reshape(-1), vs.reshape(-1), rtol=1e-8, atol=1e-10):
             return True, f'sample {s}: batched value {val[s].tolist()} but slice alone gives {vs.tolist()}'
     return False, 'agree'
